@@ -276,7 +276,7 @@ func runJoin(sc JoinScenario, inBubble bool, rng *rand.Rand) *JoinTrace {
 	for _, d := range sc.Hold {
 		total += d
 	}
-	maxWait := time.Duration(total + sc.FinalGap + 20*sc.Timeout + int64(time.Hour))
+	maxWait := time.Duration(total + sc.FinalGap + 20*min(sc.Timeout, int64(24*time.Hour)) + int64(time.Hour))
 	if sc.Real {
 		maxWait = 20 * time.Second
 	}
@@ -814,7 +814,7 @@ func judgeJoin(sc JoinScenario, tr *JoinTrace, inBubble bool) (fs []joinFinding,
 					if pm := wait * 1000 / T; pm > st.MaxWaitPermil {
 						st.MaxWaitPermil = pm
 					}
-					if wait*d > T*(d+1) {
+					if T < 1<<52 && wait < 1<<52 && wait*d > T*(d+1) { // (beyond that the products leave int64: a run never lasts that long)
 						add("C10", "late-flush", "%s: element %d (oldest of slice #%d) stayed %dns in the discipline, bound Timeout*(1+1/%d) = %dns (Timeout %dns, inaccuracy %d%%)", sc.Disc, tr.InData[a], i, wait, d, T*(d+1)/d, T, sc.Inacc)
 					}
 				}
@@ -1020,7 +1020,15 @@ func genJoinScenario(rng *rand.Rand, g joinGen) JoinScenario {
 	if !withTimeout && rng.IntN(4) == 0 {
 		sc.Timeout = -1 - rng.Int64N(1000000) // zero or negative: no timeout
 	}
+	hugeTimeout := withTimeout && !g.Real && rng.IntN(25) == 0
+	if hugeTimeout {
+		// "practically never": years (nothing is flushed by it in a run; everything else must work)
+		sc.Timeout = int64(365*24*time.Hour) * int64(1+rng.IntN(250))
+	}
 	T := max(sc.Timeout, 0)
+	if hugeTimeout {
+		T = int64(time.Millisecond) // pauses of the script are not scaled to it
+	}
 	tick := int64(0)
 	if T > 0 && d > 0 {
 		tick = T / d
